@@ -121,3 +121,158 @@ pub fn replay(family: &str, path: &str, out_dir: &str, limit: usize) -> Result<V
     Ok(json!({"behaviours": n_beh, "steps_executed": n_steps, "mismatches": n_mism, "guard_mismatch": guard_mismatch, "other_branch": other_branch,
               "by_op": by_op, "distinct_nontrivial": nontrivial.len(), "samples": samples}))
 }
+
+// ------------------------------------------------------------------------------------------
+// C29 column attributes: {layout: [desc], init: [obs], steps: [{a, expect: [obs]}]}
+
+fn col_styles() -> (ironcalc_base::types::Style, ironcalc_base::types::Style) {
+    let mut s1 = ironcalc_base::types::Style::default();
+    s1.font.b = true;
+    let mut s2 = ironcalc_base::types::Style::default();
+    s2.font.i = true;
+    s2.num_fmt = "0.00".to_string();
+    (s1, s2)
+}
+
+fn observe_cols(model: &ironcalc_base::Model, n: i32, rows: bool) -> Value {
+    let (s1, s2) = col_styles();
+    let mut v = vec![];
+    for c in 1..=n {
+        let (w, h, st) = if rows {
+            // a hidden row reports its height through the getter as it is; the observable height of
+            // a hidden row is 0 in the spec, so hidden rows are reported as 0 here as well
+            let hid = model.is_row_hidden(0, c).unwrap_or(false);
+            let hh = model.get_row_height(0, c).unwrap_or(-1.0);
+            (if hid { 0.0 } else { hh }, hid, crate::project::effective_row_style(model, 0, c))
+        } else {
+            (model.get_column_width(0, c).unwrap_or(-1.0), model.is_column_hidden(0, c).unwrap_or(false), model.get_column_style(0, c).ok().flatten())
+        };
+        let s = match st {
+            None => 0,
+            Some(st) if st == s1 => 1,
+            Some(st) if st == s2 => 2,
+            _ => 9,
+        };
+        v.push(json!({"w": (w.round() as i64), "h": h, "s": s}));
+    }
+    json!(v)
+}
+
+pub fn replay_colattrs(path: &str, out_dir: &str) -> Result<Value, String> {
+    use ironcalc_base::types::Col;
+    use ironcalc_base::Model;
+    std::fs::create_dir_all(out_dir).map_err(|e| e.to_string())?;
+    let f = std::fs::File::open(path).map_err(|e| e.to_string())?;
+    let mut mism = std::io::BufWriter::new(std::fs::File::create(format!("{}/mismatches.ndjson", out_dir)).map_err(|e| e.to_string())?);
+    let (s1, s2) = col_styles();
+    let (mut n_beh, mut n_steps, mut n_mism, mut bad_init) = (0usize, 0usize, 0usize, 0usize);
+    let mut nontrivial: BTreeSet<String> = Default::default();
+    let mut samples: Vec<Value> = vec![];
+    for line in std::io::BufReader::new(f).lines() {
+        let line = line.map_err(|e| e.to_string())?;
+        let b: Value = match serde_json::from_str(&line) {
+            Ok(v) => v,
+            Err(_) => continue,
+        };
+        n_beh += 1;
+        let ncols = b["init"].as_array().map(|a| a.len()).unwrap_or(5) as i32;
+        // build the initial descriptor layout exactly as an imported file would have it
+        let mut base = Model::new_empty("b", "en", "UTC", "en")?;
+        base.set_column_style(0, 40, &s1)?;
+        base.set_column_style(0, 41, &s2)?;
+        let idx = |m: &Model, c: i32| -> Option<i32> { m.workbook.worksheets[0].cols.iter().find(|d| d.min <= c && c <= d.max).and_then(|d| d.style) };
+        let (i1, i2) = (idx(&base, 40), idx(&base, 41));
+        let mut wb = base.workbook.clone();
+        let mut cols: Vec<Col> = vec![];
+        for d in b["layout"].as_array().cloned().unwrap_or_default() {
+            let w = d["width"].as_f64().unwrap_or(90.0);
+            cols.push(Col {
+                min: d["min"].as_i64().unwrap_or(1) as i32,
+                max: d["max"].as_i64().unwrap_or(1) as i32,
+                width: w / ironcalc_base::COLUMN_WIDTH_FACTOR,
+                custom_width: true,
+                hidden: d["hidden"].as_bool().unwrap_or(false),
+                style: match d["style"].as_i64().unwrap_or(0) {
+                    1 => i1,
+                    2 => i2,
+                    _ => None,
+                },
+            });
+        }
+        wb.worksheets[0].cols = cols;
+        let rows = b["steps"].as_array().and_then(|a| a.first()).map(|st| st["a"]["op"].as_str().unwrap_or("").starts_with("row")).unwrap_or(false);
+        if rows {
+            // rows have one record per row
+            let mut recs = vec![];
+            for d in b["layout"].as_array().cloned().unwrap_or_default() {
+                let sidx = match d["style"].as_i64().unwrap_or(0) { 1 => i1, 2 => i2, _ => None };
+                recs.push(ironcalc_base::types::Row {
+                    r: d["min"].as_i64().unwrap_or(1) as i32,
+                    height: d["width"].as_f64().unwrap_or(25.0) / ironcalc_base::ROW_HEIGHT_FACTOR,
+                    custom_format: sidx.is_some(),
+                    custom_height: true,
+                    s: sidx.unwrap_or(0),
+                    hidden: d["hidden"].as_bool().unwrap_or(false),
+                });
+            }
+            wb.worksheets[0].cols = vec![];
+            wb.worksheets[0].rows = recs;
+        }
+        let mut model = Model::from_workbook(wb, "en")?;
+        if observe_cols(&model, ncols, rows) != b["init"] {
+            bad_init += 1; // the layout does not mean to the engine what it means to the spec: no verdict
+            continue;
+        }
+        let mut program = vec![];
+        for (si, st) in b["steps"].as_array().cloned().unwrap_or_default().iter().enumerate() {
+            let a = &st["a"];
+            let c = a["c"].as_i64().unwrap_or(1) as i32;
+            let op = a["op"].as_str().unwrap_or("");
+            let before = observe_cols(&model, ncols, rows);
+            let r = std::panic::catch_unwind(std::panic::AssertUnwindSafe(|| match op {
+                "col_width" => model.set_column_width(0, c, a["v"].as_f64().unwrap_or(90.0)),
+                "col_hidden" => model.set_column_hidden(0, c, a["v"].as_bool().unwrap_or(false)),
+                "col_style" => model.set_column_style(0, c, if a["v"].as_i64() == Some(1) { &s1 } else { &s2 }),
+                "col_style_delete" => model.delete_column_style(0, c),
+                "row_width" => model.set_row_height(0, c, a["v"].as_f64().unwrap_or(25.0)),
+                "row_hidden" => model.set_row_hidden(0, c, a["v"].as_bool().unwrap_or(false)),
+                "row_style" => model.set_row_style(0, c, if a["v"].as_i64() == Some(1) { &s1 } else { &s2 }),
+                "row_style_delete" => model.delete_row_style(0, c),
+                _ => Err("unknown op".to_string()),
+            }));
+            program.push(a.clone());
+            n_steps += 1;
+            let got = observe_cols(&model, ncols, rows);
+            let ok = matches!(r, Ok(Ok(())));
+            if !ok || got != st["expect"] {
+                // which attribute of which column is wrong, relative to the acted column
+                let mut why = String::from("call-failed");
+                if ok {
+                    let (g, e) = (got.as_array().unwrap(), st["expect"].as_array().unwrap());
+                    for i in 0..g.len() {
+                        if g[i] != e[i] {
+                            let attr = if g[i]["w"] != e[i]["w"] { "width" } else if g[i]["h"] != e[i]["h"] { "hidden" } else { "style" };
+                            let whichcol = if (i as i32 + 1) == c { "same-column" } else { "other-column" };
+                            why = format!("{attr}-of-{whichcol}");
+                            break;
+                        }
+                    }
+                }
+                let spans = b["layout"].as_array().map(|l| l.iter().any(|d| d["min"] != d["max"] && d["min"].as_i64().unwrap_or(0) as i32 <= c && c <= d["max"].as_i64().unwrap_or(0) as i32)).unwrap_or(false);
+                let subject = format!("{}{}{}", op, if spans { ":inside-multi-column-descriptor" } else { "" }, if before[(c - 1) as usize]["h"] == json!(true) { ":hidden" } else { "" });
+                writeln!(mism, "{}", json!({"property": "C29", "why": why, "subject": subject, "case": {"layout": b["layout"], "program": program, "step": si},
+                    "detail": format!("got {} want {}", got, st["expect"])})).ok();
+                n_mism += 1;
+                break;
+            }
+            if got != before {
+                nontrivial.insert(format!("{}:{}", op, b["layout"]));
+            }
+        }
+        if samples.len() < 2 && !b["layout"].as_array().map(|a| a.is_empty()).unwrap_or(true) {
+            samples.push(b.clone());
+        }
+    }
+    mism.flush().ok();
+    Ok(json!({"cases": n_beh, "checks": n_steps, "mismatches": n_mism, "distinct_nontrivial": nontrivial.len(), "samples": samples, "no_verdict": bad_init}))
+}
